@@ -320,6 +320,10 @@ func genC08(ctx *Ctx) {
 		for i := 1; i <= n; i++ {
 			hs = append(hs, i)
 		}
+		traced := round < 2 // the first rounds are recorded step by step and validated by the monitor (Model/Monitor.v)
+		if traced {
+			proxycore.VerifTraceStart()
+		}
 		e := newC08Env(ctx, hs, hs, nil)
 		e.addClient(4, "") // client 0: probes
 		nc := 1 + r.Intn(3)
@@ -393,6 +397,9 @@ func genC08(ctx *Ctx) {
 				}
 				e.execute(ci, hv.Pick(r, have), batch, note)
 			}
+		}
+		if traced {
+			emitTrace(ctx, false, "traced-run: prepared statements, forgetting and restarting hosts")
 		}
 		e.close()
 	}
